@@ -352,3 +352,37 @@ Definition c14_draw_mismatches (cases : list (draw_input * draw_obs)) : list Z :
   bad_indices (fun c => negb (draw_obs_eqb (draw_run (fst c)) (snd c))) cases.
 Definition c14_draw_violations (cases : list (draw_input * draw_obs)) : list Z :=
   bad_indices (fun c => negb (draw_ok c)) cases.
+
+(* ---------------------------------------------------------------- layout followed by render *)
+
+(* App.layout + Surface.render: Draw with Max = the window size, then render the returned
+   tree into the root window of a cols x rows screen.  Observation: outcome and screen rows. *)
+Definition paint_obs : Type := Z * list (list wcell).
+
+Definition paint_run (inp : draw_input) : paint_obs :=
+  let '(ws, cols, rows) := inp in
+  match draw ws cols rows with
+  | DPanic => (1, [])
+  | DOk s =>
+      match render [(0, 0, cols, rows)] s with
+      | None => (1, [])
+      | Some ps => match screen_apply (new_screen wblank cols rows) ps with
+                   | None => (1, [])
+                   | Some sc => (0, sc_buf sc)
+                   end
+      end
+  end.
+
+Definition paint_obs_eqb (a b : paint_obs) : bool :=
+  (fst a =? fst b) && ((fst a =? 1) || list_eqb (list_eqb wcell_eqb) (snd a) (snd b)).
+
+(* on one observation: a panic only where documented, and a full cols x rows screen *)
+Definition paint_ok (c : draw_input * paint_obs) : bool :=
+  let '((ws, cols, rows), (out, scr)) := c in
+  if out =? 1 then contract_panic ws cols rows
+  else (out =? 0) && (zlen scr =? rows) && forallb (fun r => zlen r =? cols) scr.
+
+Definition c14_paint_mismatches (cases : list (draw_input * paint_obs)) : list Z :=
+  bad_indices (fun c => negb (paint_obs_eqb (paint_run (fst c)) (snd c))) cases.
+Definition c14_paint_violations (cases : list (draw_input * paint_obs)) : list Z :=
+  bad_indices (fun c => negb (paint_ok c)) cases.
